@@ -183,7 +183,7 @@ func (x *Exec) appendCall(st *State, cc *ssa.CallCommon, args []Val, pos token.P
 		newArr = oldArr
 	} else {
 		newArr = c.freshSort("app", c.regions[r][len("(Array Int "):len(c.regions[r])-1])
-		c.assume(fmt.Sprintf("(forall ((i Int)) (! (= (select %s i) (ite (and (<= (+ %s %s) i) (< i (+ %s %s))) %s (select %s i))) :pattern ((select %s i))))",
+		c.assumeDef(fmt.Sprintf("(forall ((i Int)) (! (= (select %s i) (ite (and (<= (+ %s %s) i) (< i (+ %s %s))) %s (select %s i))) :pattern ((select %s i))))",
 			newArr, off, ln, off, newLen, srcAt(sx("-", "i", sx("+", off, ln))), oldArr, newArr))
 	}
 	newArr = c.def("arr", c.regions[r][len("(Array Int "):len(c.regions[r])-1], newArr)
@@ -223,7 +223,7 @@ func (x *Exec) copyCall(st *State, args []Val, pos token.Pos) Val {
 	dArr := c.def("dst", asort, sx("select", h, sRef(dst.S)))
 	newArr := c.freshSort("cpy", asort)
 	doff := sOff(dst.S)
-	c.assume(fmt.Sprintf("(forall ((i Int)) (! (= (select %s i) (ite (and (<= %s i) (< i (+ %s %s))) %s (select %s i))) :pattern ((select %s i))))",
+	c.assumeDef(fmt.Sprintf("(forall ((i Int)) (! (= (select %s i) (ite (and (<= %s i) (< i (+ %s %s))) %s (select %s i))) :pattern ((select %s i))))",
 		newArr, doff, doff, nn, srcAt(sx("-", "i", doff)), dArr, newArr))
 	c.setRegion(st, r, ite(eq(nn, "0"), h, sx("store", h, sRef(dst.S), newArr)))
 	intT := types.Typ[types.Int]
@@ -399,6 +399,8 @@ func (x *Exec) havocMods(st *State, ms *ModSet) {
 
 // inlineCall symbolically executes the callee body in the caller's state.
 func (x *Exec) inlineCall(st *State, fn *ssa.Function, binds []Val, args []Val, resT *types.Tuple, ghost bool) Val {
+	savedGuard := x.c.curGuard
+	defer func() { x.c.curGuard = savedGuard }()
 	if ghost && x.p.isGhostFn(fn) && (isRecursive(fn) || x.p.namedGhost(fn)) {
 		return x.recApp(st, fn, args, resT)
 	}
@@ -522,7 +524,10 @@ func (x *Exec) assumeEnsures(st, pre *State, fc *FuncContract, fn *ssa.Function,
 		if en.Opaque && !x.revealed(en) {
 			continue
 		}
-		x.assumeG(st, x.evalClause(env, en))
+		fact := x.evalClause(env, en)
+		x.c.curTag = strings.Join(en.Tags, ",")
+		x.assumeG(st, fact)
+		x.c.curTag = ""
 	}
 }
 
@@ -619,7 +624,7 @@ func (x *Exec) invoke(st *State, cc *ssa.CallCommon, recv Val, args []Val, pos t
 		na := c.freshSort("rd", asort)
 		n := c.freshSort("n", "Int")
 		c.assume(and(sx("<=", "0", n), sx("<=", n, sLen(p.S))))
-		c.assume(fmt.Sprintf("(forall ((i Int)) (! (=> (not (and (<= %s i) (< i (+ %s %s)))) (= (select %s i) (select %s i))) :pattern ((select %s i))))",
+		c.assumeDef(fmt.Sprintf("(forall ((i Int)) (! (=> (not (and (<= %s i) (< i (+ %s %s)))) (= (select %s i) (select %s i))) :pattern ((select %s i))))",
 			sOff(p.S), sOff(p.S), n, na, old, na))
 		c.setRegion(st, r, ite(eq(sRef(p.S), "0"), h, sx("store", h, sRef(p.S), na)))
 		c.havocRegion(st, "$alloc")
@@ -728,8 +733,8 @@ func (x *Exec) tapeDeliver(st *State, arr, off, n string) {
 	c := x.c
 	c.declareFun("gtape", []string{"Int"}, c.intSort(8))
 	tp := c.region(st, "$tpos")
-	c.assume(fmt.Sprintf("(forall ((i Int)) (! (=> (and (<= 0 i) (< i %s)) (= (select %s (+ %s i)) (gtape (+ %s i)))) :pattern ((gtape (+ %s i)))))", n, arr, off, tp, tp))
-	c.assume(fmt.Sprintf("(forall ((i Int)) (! (=> (and (<= %s i) (< i (+ %s %s))) (= (select %s i) (gtape (+ %s (- i %s))))) :pattern ((select %s i))))", off, off, n, arr, tp, off, arr))
+	c.assumeDef(fmt.Sprintf("(forall ((i Int)) (! (=> (and (<= 0 i) (< i %s)) (= (select %s (+ %s i)) (gtape (+ %s i)))) :pattern ((gtape (+ %s i)))))", n, arr, off, tp, tp))
+	c.assumeDef(fmt.Sprintf("(forall ((i Int)) (! (=> (and (<= %s i) (< i (+ %s %s))) (= (select %s i) (gtape (+ %s (- i %s))))) :pattern ((select %s i))))", off, off, n, arr, tp, off, arr))
 	st.cells["$tpos"] = Val{S: c.def("tpos", "Int", sx("+", tp, n))}
 	c.assume(and(sx("<=", "0", tp), sx("<=", sx("+", tp, n), tposMax)))
 	c.note("ghost input tape: fewer than 2^62 input bytes are delivered in total")
@@ -752,7 +757,7 @@ func init() {
 		na := c.freshSort("rf", asort)
 		n := c.freshSort("n", "Int")
 		c.assume(and(sx("<=", "0", n), sx("<=", n, sLen(p.S))))
-		c.assume(fmt.Sprintf("(forall ((i Int)) (! (=> (not (and (<= %s i) (< i (+ %s %s)))) (= (select %s i) (select %s i))) :pattern ((select %s i))))",
+		c.assumeDef(fmt.Sprintf("(forall ((i Int)) (! (=> (not (and (<= %s i) (< i (+ %s %s)))) (= (select %s i) (select %s i))) :pattern ((select %s i))))",
 			sOff(p.S), sOff(p.S), n, na, old, na))
 		c.setRegion(st, r, ite(eq(sRef(p.S), "0"), h, sx("store", h, sRef(p.S), na)))
 		c.havocRegion(st, "$alloc")
